@@ -129,7 +129,7 @@ def conds_streamHTTP_writeMsg : List String := [
    "return count, err",
    "if s.method.desc.IsStreamingServer()",
    "if !ok",
-   "return count, fmt.Errorf(\"codec %s does not support streaming\", codec.Name())",
+   "return count, fmt.Errorf(\"codec %s does not support streaming\", c.Name())",
    "return count, err",
    "return count, s.opts.writeAll(s.w, b)"
   ]
